@@ -111,24 +111,66 @@ Section Recv.
     repeat match goal with |- context [?a =? ?b] => destruct (Z.eqb_spec a b) end;
     cbn [andb]; try lia; try congruence.
 
+  (* the memo step: what it may do to the receiver's own balances — nothing, unless the receiver is the derived sender or the
+     callee of a call that carries value *)
+  Definition memo_untouched (p : inpacket) : Prop :=
+    match ip_memo p with
+    | MemoCall _ v => v = 0 \/ (ip_recv p <> isender (ip_src p) (ip_sender p) /\ ip_recv p <> Callee)
+    | _ => True
+    end.
+
+  Lemma ladd_zero l k k' : ladd l k 0 k' = l k'.
+  Proof. unfold ladd. destruct (key_eqb k k'); lia. Qed.
+
+  Lemma memo_step_receiver p s1 c2 :
+    memo_step isender p s1 = Ok c2 -> memo_untouched p ->
+    forall k a, ibal c2 (ip_recv p, k, a) = ibal s1 (ip_recv p, k, a).
+  Proof.
+    unfold memo_step, memo_untouched. intros H U k a.
+    destruct (ip_memo p) as [| | |f v]; try (inversion H; subst; reflexivity); try discriminate.
+    destruct (negb (has_acct s1 _)); [discriminate|]. destruct (_ <? _); [discriminate|].
+    destruct f; inversion H; subst. cbn [ibal with_log with_bal].
+    destruct U as [->|[U1 U2]].
+    - rewrite !ladd_zero. reflexivity.
+    - rewrite !ladd_other_holder by congruence. reflexivity.
+  Qed.
+
+  Lemma memo_step_shape p s1 c2 :
+    memo_step isender p s1 = Ok c2 ->
+    rel c2 = rel s1 /\ nextseq c2 = nextseq s1 /\
+    (ilog c2 = ilog s1 \/ ilog c2 = ilog s1 ++ [EvCall (isender (ip_src p) (ip_sender p))]).
+  Proof.
+    unfold memo_step. intros H.
+    destruct (ip_memo p) as [| | |f v]; try (inversion H; subst; auto); try discriminate.
+    destruct (negb (has_acct s1 _)); [discriminate|]. destruct (_ <? _); [discriminate|].
+    destruct f; inversion H; subst. cbn. auto.
+  Qed.
+
+  Lemma memo_step_calls p s1 a :
+    In (EvCall a) (ilog (written (memo_step isender p s1))) -> In (EvCall a) (ilog s1) \/ a = isender (ip_src p) (ip_sender p).
+  Proof.
+    unfold memo_step. destruct (ip_memo p) as [| | |f v]; cbn [written]; auto.
+    destruct (negb (has_acct s1 _)); cbn [written]; auto. destruct (_ <? _); cbn [written]; auto.
+    destruct f; cbn [written ilog with_log with_bal]; intros Hin; apply in_app_or in Hin;
+      (destruct Hin as [Hin|[E|[]]]; [auto|inversion E; auto]).
+  Qed.
+
   (* success for a non-native denom: it is an Own voucher to a hex receiver, and the receiver's balances change
      in exactly one place: + amount of the pair's ERC-20 *)
   Lemma recv_success_erc20 p s s' :
-    recv isender p s = (s', true) -> ip_denom p <> DFx -> 0 <= ip_recv p -> 0 <= ip_dst p ->
+    recv isender p s = (s', true) -> ip_denom p <> DFx -> 0 <= ip_recv p -> 0 <= ip_dst p -> memo_untouched p ->
     exists t, (ip_denom p = DOwn t \/ ip_denom p = DBase t) /\ ip_hex p = true /\ ip_addr_ok p = true /\ 0 < ip_amt p /\
       ibal s' (ip_recv p, AErc, t) = ibal s (ip_recv p, AErc, t) + ip_amt p /\
       (forall k a, (k, a) <> (AErc, t) -> ibal s' (ip_recv p, k, a) = ibal s (ip_recv p, k, a)).
   Proof.
-    rewrite recv_unfold. intros H Hfx Hpos Hdst.
+    rewrite recv_unfold. intros H Hfx Hpos Hdst Hmu.
     destruct (ip_addr_ok p) eqn:Eaddr; cbv beta iota delta [negb] in H; [|inversion H].
     destruct (transfer_recv p s) as [c1|c1] eqn:Et; [|inversion H].
     destruct (hook_recv isender p c1) as [c2|c2] eqn:Eh; inversion H; subst s'. clear H.
     unfold transfer_recv in Et. destruct (Z.leb_spec (ip_amt p) 0) as [|Hamt]; [discriminate|].
+    destruct (ip_recv p =? BlockedAddr); [discriminate|].
     unfold hook_recv in Eh. apply bind_ok in Eh. destruct Eh as (h1 & Hconv & Hmemo).
-    assert (Hlog : forall k, ibal c2 k = ibal h1 k).
-    { destruct (ip_memo p) as [| | |f]; try (inversion Hmemo; subst; reflexivity); try discriminate.
-      destruct (has_acct h1 (isender (ip_src p) (ip_sender p))); cbv beta iota delta [negb] in Hmemo; [|discriminate].
-      destruct f; inversion Hmemo; subst; reflexivity. }
+    pose proof (memo_step_receiver p h1 c2 Hmemo Hmu) as Hlog.
     destruct (ip_denom p) as [|t|t| |t] eqn:Ed; [congruence| | | |].
     - (* Own t *)
       cbn [voucher_asset] in *. destruct (ip_hex p) eqn:Ehex; cbn [negb] in Hconv; [|discriminate].
@@ -174,20 +216,18 @@ Section Recv.
 
   (* native FX: success credits exactly the amount as the native coin, hex or bech32 receiver alike *)
   Lemma recv_success_fx p s s' :
-    recv isender p s = (s', true) -> ip_denom p = DFx -> 0 <= ip_recv p -> 0 <= ip_dst p ->
+    recv isender p s = (s', true) -> ip_denom p = DFx -> 0 <= ip_recv p -> 0 <= ip_dst p -> memo_untouched p ->
     0 < ip_amt p /\ ibal s' (ip_recv p, AFx, 0) = ibal s (ip_recv p, AFx, 0) + ip_amt p /\
     (forall k a, (k, a) <> (AFx, 0) -> ibal s' (ip_recv p, k, a) = ibal s (ip_recv p, k, a)).
   Proof.
-    rewrite recv_unfold. intros H Hfx Hpos Hdst.
+    rewrite recv_unfold. intros H Hfx Hpos Hdst Hmu.
     destruct (ip_addr_ok p) eqn:Eaddr; cbv beta iota delta [negb] in H; [|inversion H].
     destruct (transfer_recv p s) as [c1|c1] eqn:Et; [|inversion H].
     destruct (hook_recv isender p c1) as [c2|c2] eqn:Eh; inversion H; subst s'. clear H.
     unfold transfer_recv in Et. destruct (Z.leb_spec (ip_amt p) 0) as [|Hamt]; [discriminate|].
+    destruct (ip_recv p =? BlockedAddr); [discriminate|].
     unfold hook_recv in Eh. rewrite Hfx in *. cbn [bind] in Eh.
-    assert (Hlog : forall k, ibal c2 k = ibal c1 k).
-    { destruct (ip_memo p) as [| | |f]; try (inversion Eh; subst; reflexivity); try discriminate.
-      destruct (has_acct c1 (isender (ip_src p) (ip_sender p))); cbv beta iota delta [negb] in Eh; [|discriminate].
-      destruct f; inversion Eh; subst; reflexivity. }
+    pose proof (memo_step_receiver p c1 c2 Eh Hmu) as Hlog.
     unfold pay in Et. destruct (_ <? _); [discriminate|]. inversion Et; subst c1. clear Et.
     split; [exact Hamt|]. split.
     - rewrite Hlog. cbn [ibal with_bal]. peel. rewrite !Z.eqb_refl. cbn [andb]. lia.
@@ -201,7 +241,7 @@ Section Recv.
     ibal s' (ip_recv p, AErc, t) = ibal s (ip_recv p, AErc, t) + ip_amt p /\
     (forall k a, (k, a) <> (AErc, t) -> ibal s' (ip_recv p, k, a) = ibal s (ip_recv p, k, a)).
   Lemma recv_rule_table p s s' :
-    recv isender p s = (s', true) -> 0 <= ip_recv p -> 0 <= ip_dst p ->
+    recv isender p s = (s', true) -> 0 <= ip_recv p -> 0 <= ip_dst p -> memo_untouched p ->
     match recv_rule_of (ip_denom p) (ip_hex p) with
     | RKeepNative => ibal s' (ip_recv p, AFx, 0) = ibal s (ip_recv p, AFx, 0) + ip_amt p /\
                      (forall k a, (k, a) <> (AFx, 0) -> ibal s' (ip_recv p, k, a) = ibal s (ip_recv p, k, a))
@@ -209,14 +249,36 @@ Section Recv.
     | RRefuse | RNoPair => False
     end.
   Proof.
-    intros H Hr Hd. destruct (ip_denom p) as [|t|t| |t] eqn:Ed.
-    - cbn. destruct (recv_success_fx p s s' H Ed Hr Hd) as (_ & A & B). split; assumption.
+    intros H Hr Hd Hmu. destruct (ip_denom p) as [|t|t| |t] eqn:Ed.
+    - cbn. destruct (recv_success_fx p s s' H Ed Hr Hd Hmu) as (_ & A & B). split; assumption.
     - destruct (recv_success_erc20 p s s' H) as (t' & [E|E] & Hh & _ & _ & A & B); try assumption; try (rewrite Ed; discriminate);
         rewrite Ed in E; inversion E; subst. cbn. rewrite Hh. split; assumption.
     - destruct (recv_success_erc20 p s s' H) as (t' & [E|E] & _); try assumption; try (rewrite Ed; discriminate); rewrite Ed in E; discriminate.
     - destruct (recv_success_erc20 p s s' H) as (t' & [E|E] & _); try assumption; try (rewrite Ed; discriminate); rewrite Ed in E; discriminate.
     - destruct (recv_success_erc20 p s s' H) as (t' & [E|E] & Hh & _ & _ & A & B); try assumption; try (rewrite Ed; discriminate);
         rewrite Ed in E; inversion E; subst. cbn. rewrite Hh. split; assumption.
+  Qed.
+
+  (* a receiver the bank refuses to credit (module account / blocked address): always refused, whatever the coin *)
+  Lemma recv_blocked_refused p s s' ok :
+    recv isender p s = (s', ok) -> ip_recv p = BlockedAddr -> ok = false /\ s' = s.
+  Proof.
+    rewrite recv_unfold. intros H Hb. unfold transfer_recv in H. rewrite Hb, Z.eqb_refl in H.
+    destruct (negb (ip_addr_ok p)); [inversion H; auto|]. destruct (ip_amt p <=? 0); inversion H; auto.
+  Qed.
+
+  (* a memo call that carries value: executed only if the derived sender has an account and can pay; the value moves from the
+     derived sender to the callee — nobody else pays *)
+  Lemma memo_value_paid_by_derived_sender p s1 c2 f v :
+    ip_memo p = MemoCall f v -> memo_step isender p s1 = Ok c2 ->
+    let from := isender (ip_src p) (ip_sender p) in
+    has_acct s1 from = true /\ v <= ibal s1 (from, AFx, 0) /\ f = false /\
+    forall k, ibal c2 k = ladd (ladd (ibal s1) (from, AFx, 0) (- v)) (Callee, AFx, 0) v k.
+  Proof.
+    unfold memo_step. intros -> H. cbn zeta.
+    destruct (has_acct s1 _) eqn:Ha; cbn [negb] in H; [|discriminate].
+    destruct (Z.ltb_spec (ibal s1 (isender (ip_src p) (ip_sender p), AFx, 0)) v); [discriminate|].
+    destruct f; inversion H; subst. split; [reflexivity|]. split; [lia|]. split; [reflexivity|]. intros k. reflexivity.
   Qed.
 
   (* a non-native token to a bech32 receiver is never accepted *)
@@ -267,12 +329,8 @@ Section Recv.
         + unfold convert_coin in Ec. destruct (negb _); [inversion Ec; subst; auto|].
           unfold pay in Ec. cbn [bind] in Ec. destruct (_ <? _); cbn [bind] in Ec; inversion Ec; subst; auto. }
     destruct conv as [s1|s1]; cbn [bind written] in *.
-    - destruct (ip_memo p) as [| | |f]; cbn [written]; intros Hin;
-        try (destruct (Hconv _ Hin) as [|(r&t&n&E)]; [auto|discriminate]).
-      destruct (negb (has_acct s1 _)); cbn [written] in Hin.
-      + destruct (Hconv _ Hin) as [|(r&t&n&E)]; [auto|discriminate].
-      + destruct f; cbn [written ilog with_log] in Hin; apply in_app_or in Hin;
-          (destruct Hin as [Hin|[E|[]]]; [destruct (Hconv _ Hin) as [|(r&t&n&E)]; [auto|discriminate]|inversion E; auto]).
+    - intros Hin. destruct (memo_step_calls p s1 a Hin) as [Hin'|E]; [|auto].
+      destruct (Hconv _ Hin') as [|(r&t&n&E)]; [auto|discriminate].
     - intros Hin. destruct (Hconv _ Hin) as [|(r&t&n&E)]; [auto|discriminate].
   Qed.
 End Recv.
@@ -344,19 +402,16 @@ Section Runs.
         exists [EvCredit (ip_recv p) t (ip_amt p)]. split; [congruence|].
         intros e [<-|[]]. left. eauto. }
     destruct C as (R & N & evs & L & B).
-    destruct (ip_memo p) as [| | |f].
-    - inversion Hmemo; subst. split; [auto|split; [auto|eauto]].
-    - inversion Hmemo; subst. split; [auto|split; [auto|eauto]].
-    - discriminate.
-    - destruct (negb (has_acct s1 _)); [discriminate|].
-      destruct f; inversion Hmemo; subst. cbn [rel nextseq ilog with_log]. split; [auto|split; [auto|]].
-      exists (evs ++ [EvCall (isender (ip_src p) (ip_sender p))]). split; [rewrite L, app_assoc; reflexivity|].
+    destruct (memo_step_shape isender p s1 s' Hmemo) as (R' & N' & [L'|L']).
+    - split; [congruence|]. split; [congruence|]. exists evs. split; [congruence|exact B].
+    - split; [congruence|]. split; [congruence|].
+      exists (evs ++ [EvCall (isender (ip_src p) (ip_sender p))]). split; [rewrite L', L, app_assoc; reflexivity|].
       intros e Hin. apply in_app_or in Hin. destruct Hin as [Hin|[<-|[]]]; [auto|]. right. eauto.
   Qed.
 
   Lemma transfer_recv_proj p s s' : transfer_recv p s = Ok s' -> same_proj s s'.
   Proof.
-    unfold transfer_recv. destruct (_ <=? _); [discriminate|].
+    unfold transfer_recv. destruct (_ <=? _); [discriminate|]. destruct (_ =? _); [discriminate|].
     destruct (ip_denom p); cbn [voucher_asset]; intros H;
       try (eapply pay_proj; eauto; fail);
       (eapply same_proj_trans; [apply mint_proj|eapply pay_proj; eauto]).
@@ -718,11 +773,11 @@ Lemma c19_nonvacuous :
   (let s := run ex_isender [SendFromEvm 0 0 (DAlias 0) 30; Timeout 0 1; TimeoutRaw 0 1; AckRaw 0 1 false] ex_state in
    ibal s (0, AErc, 0) = 500 /\ rel s = [] /\ count (is_reconv 0 1) (ilog s) = 1%nat /\ ibal s (0, ACoin, 0) = 60) /\
   (* inbound own voucher to a hex receiver with a memo call: credited as ERC-20, call ran as the derived sender *)
-  (let p := {| ip_src := 7; ip_dst := 0; ip_sender := 0; ip_denom := DOwn 10; ip_amt := 25; ip_addr_ok := true; ip_hex := true; ip_recv := 2; ip_memo := MemoCall false |} in
+  (let p := {| ip_src := 7; ip_dst := 0; ip_sender := 0; ip_denom := DOwn 10; ip_amt := 25; ip_addr_ok := true; ip_hex := true; ip_recv := 2; ip_memo := MemoCall false 0 |} in
    let (s, ok) := recv ex_isender p ex_state in
    ok = true /\ ibal s (2, AErc, 10) = 25 /\ ibal s (2, ACoin, 10) = 0 /\ ilog s = [EvCredit 2 10 25; EvCall 1700]) /\
   (* the same packet with a reverting call, to a bech32 receiver, or for an alias voucher: error acknowledgement, nothing changes *)
-  (let p := {| ip_src := 7; ip_dst := 0; ip_sender := 0; ip_denom := DOwn 10; ip_amt := 25; ip_addr_ok := true; ip_hex := true; ip_recv := 2; ip_memo := MemoCall true |} in
+  (let p := {| ip_src := 7; ip_dst := 0; ip_sender := 0; ip_denom := DOwn 10; ip_amt := 25; ip_addr_ok := true; ip_hex := true; ip_recv := 2; ip_memo := MemoCall true 0 |} in
    snd (recv ex_isender p ex_state) = false) /\
   (let p := {| ip_src := 7; ip_dst := 0; ip_sender := 0; ip_denom := DAlias 0; ip_amt := 25; ip_addr_ok := true; ip_hex := true; ip_recv := 2; ip_memo := NoMemo |} in
    snd (recv ex_isender p ex_state) = false) /\
